@@ -18,13 +18,20 @@ var readOnlyTags = map[string]bool{"open": true, "get": true, "geti": true, "exi
 	"shape": true, "names": true, "blocks": true, "random": true, "iter": true, "close": true, "set": true,
 	"del": true, "setcoll": true, "rmcoll": true, "fill": true, "setroot": true}
 
-func isRootRecord(b []byte) bool {
+// isRootRecord: b, written at file offset `at`, is a root record — both marker pairs, and a trailer
+// that names `at` and len(b) (a VALUE may have the same shape, e.g. a backup of another store kept as
+// a value; its trailer does not name the place it was written to)
+func isRootRecord(b []byte, at int64) bool {
 	mb, me := gkvlite.MagicBeg, gkvlite.MagicEnd
 	if len(b) < 44 {
 		return false
 	}
-	return bytes.HasPrefix(b, append(append([]byte{}, mb...), mb...)) &&
-		bytes.HasSuffix(b, append(append([]byte{}, me...), me...))
+	if !bytes.HasPrefix(b, append(append([]byte{}, mb...), mb...)) ||
+		!bytes.HasSuffix(b, append(append([]byte{}, me...), me...)) {
+		return false
+	}
+	tr := b[len(b)-2*len(me)-12:]
+	return int64(binary.BigEndian.Uint64(tr[:8])) == at && int(binary.BigEndian.Uint32(tr[8:12])) == len(b)
 }
 
 // appendCheck evaluates C09's predicate on the file's complete call log: every write starts at
@@ -46,7 +53,7 @@ func (w *World) appendCheck(fid int) string {
 			if e.Off < durable {
 				return fmt.Sprintf("bad:write-below-durable-end call=%d off=%d durable=%d op=%s", i, e.Off, durable, e.Tag)
 			}
-			if !e.Failed && isRootRecord(e.Data) {
+			if !e.Failed && isRootRecord(e.Data, e.Off) {
 				durable = e.Off + int64(len(e.Data))
 				rootEnds[durable] = true
 			}
@@ -80,7 +87,7 @@ func lastRootRecord(b []byte) []byte {
 		}
 		off := int64(binary.BigEndian.Uint64(b[e-24 : e-16]))
 		ln := int64(binary.BigEndian.Uint32(b[e-16 : e-12]))
-		if off >= 0 && off+44 < int64(e) && ln == int64(e)-off && isRootRecord(b[off:e]) {
+		if off >= 0 && off+44 < int64(e) && ln == int64(e)-off && isRootRecord(b[off:e], off) {
 			return append([]byte(nil), b[off:e]...)
 		}
 	}
